@@ -1,0 +1,49 @@
+//go:build verif
+
+package guard
+
+// Machine-checked contracts (comment-only; compiled only with -tags verif).
+//
+// Monitor invariant of guard.mu (asserted at every release, including the release
+// inside cond.Wait; assumed at every acquisition):
+//   sorted  the queue of waiting ids is strictly increasing (so ids are distinct and in arrival order)
+//   ids     every queued id lies in (0, largestGuardID]
+// Two-state invariant (every critical section of every thread):
+//   ids_never_reissued  largestGuardID never decreases -- together with "a new id is
+//   largestGuardID+1" this makes every issued id larger than every id issued before,
+//   so a stale release can never name the current holder.
+
+//@ type guard
+//@   guarded_by mu: waitForUnlock, largestGuardID, bodyAuthID
+//@   cond cond on mu
+//@   invariant[cond_set] self.cond != nil
+//@   lockinv mu [sorted] forall i in 0..len(self.waitForUnlock)-1: self.waitForUnlock[i] < self.waitForUnlock[i+1]
+//@   lockinv mu [ids] forall i in 0..len(self.waitForUnlock): 0 < self.waitForUnlock[i] && self.waitForUnlock[i] <= self.largestGuardID
+//@   lockinv mu [counter] self.largestGuardID >= 0
+//@   stable mu [ids_never_reissued] self.largestGuardID >= old(self.largestGuardID)
+
+//@ func (*guard).StartTreasureGuard(g, waiting, bodyAuthID) (id)
+//@   property C15 C09
+//@   nopanic
+//@   overflow: assumed
+//@   modifies *
+//@   loop 0 invariant[monitor] lockinv(g, "mu")
+//@   loop 0 invariant[queued] exists j in 0..len(g.waitForUnlock): g.waitForUnlock[j] == gID
+//@   loop 0 invariant[positive] gID > 0
+//@   rely[own_id_stays_queued] exists j in 0..len(g.waitForUnlock): g.waitForUnlock[j] == gID
+//@   csensures[holder_is_head] guardID != 0 ==> len(g.waitForUnlock) > 0 && g.waitForUnlock[0] == guardID
+//@   csensures[nonwaiting_refused_when_busy] !waiting && old(len(g.waitForUnlock)) > 0 ==> guardID == 0 && len(g.waitForUnlock) == old(len(g.waitForUnlock)) && g.largestGuardID == old(g.largestGuardID) && forall i in 0..len(g.waitForUnlock): g.waitForUnlock[i] == old(g.waitForUnlock[i])
+//@   csensures[nonwaiting_granted_when_free] !waiting && old(len(g.waitForUnlock)) == 0 ==> guardID == old(g.largestGuardID) + 1 && len(g.waitForUnlock) == 1
+//@   csensures[waiting_granted] waiting ==> guardID != 0
+
+//@ func (*guard).ReleaseTreasureGuard(g, guardID)
+//@   property C15 C09
+//@   nopanic
+//@   modifies *
+//@   csensures[foreign_or_stale_id_has_no_effect] (old(len(g.waitForUnlock)) == 0 || old(g.waitForUnlock[0]) != guardID) ==> len(g.waitForUnlock) == old(len(g.waitForUnlock)) && g.largestGuardID == old(g.largestGuardID) && forall i in 0..len(g.waitForUnlock): g.waitForUnlock[i] == old(g.waitForUnlock[i])
+//@   csensures[holder_release_pops_head] old(len(g.waitForUnlock)) > 0 && old(g.waitForUnlock[0]) == guardID ==> len(g.waitForUnlock) == old(len(g.waitForUnlock)) - 1 && forall i in 0..len(g.waitForUnlock): g.waitForUnlock[i] == old(g.waitForUnlock[i+1])
+
+//@ func (*guard).CanExecute(g, guardID, isBodyFunction) (err)
+//@   property C15 C09
+//@   modifies *
+//@   csensures[only_holder] isnil(deref_result0()) ==> len(g.waitForUnlock) > 0 && g.waitForUnlock[0] == guardID
